@@ -237,8 +237,10 @@ func checkC20(c PoolCase, o *Obs) error {
 				if holding {
 					want = 1
 				}
-				if got := pool.outstanding[id]; got != want && st.err == nil {
-					st.err = fmt.Errorf("connection %d after step %d %s (err=%v): holds %d pooled buffers, want %d (a buffer is held exactly while a message writer is open)", id, cl.Step, cl.API, cl.Err, got, want)
+				// A buffer may be held only while a message writer is open (taking it
+				// later than NextWriter would be harmless, keeping it longer is not).
+				if got := pool.outstanding[id]; got > want && st.err == nil {
+					st.err = fmt.Errorf("connection %d after step %d %s (err=%v): holds %d pooled buffers although no message writer is open (a buffer may be held only while a message is being written)", id, cl.Step, cl.API, cl.Err, got)
 				}
 			}
 			st.tw = RunWriteHooked(conn, st.tr, steps, pc.W.Compress, pc.W.Server, gate, after)
